@@ -604,6 +604,25 @@ impl Deb822 {
     }
 }
 
+/// Make sure the text of `node` ends with a line end, so that whatever is
+/// appended after it starts on a line of its own.
+fn ensure_trailing_newline(node: &SyntaxNode) {
+    if let Some(last) = node.last_token() {
+        if last.kind() != NEWLINE {
+            let mut builder = GreenNodeBuilder::new();
+            builder.start_node(EMPTY_LINE.into());
+            builder.token(NEWLINE.into(), "\n");
+            builder.finish_node();
+            let newline = SyntaxNode::new_root_mut(builder.finish())
+                .first_token()
+                .unwrap();
+            let parent = last.parent().unwrap();
+            let index = last.index() + 1;
+            parent.splice_children(index..index, vec![newline.into()]);
+        }
+    }
+}
+
 fn inject(builder: &mut GreenNodeBuilder, node: SyntaxNode) {
     builder.start_node(node.kind().into());
     for child in node.children_with_tokens() {
@@ -826,6 +845,7 @@ impl Paragraph {
     /// Insert a new field
     pub fn insert(&mut self, key: &str, value: &str) {
         let entry = Entry::new(key, value);
+        ensure_trailing_newline(&self.0);
         let count = self.0.children_with_tokens().count();
         self.0.splice_children(count..count, vec![entry.0.into()]);
     }
@@ -843,6 +863,7 @@ impl Paragraph {
                 return;
             }
         }
+        ensure_trailing_newline(&self.0);
         let count = self.0.children_with_tokens().count();
         self.0
             .splice_children(count..count, vec![new_entry.0.into()]);
